@@ -13,6 +13,7 @@ def handle (line : String) : String :=
   | "recreateio" :: c :: rs :: ws :: _ :: entries => recreateIoLine (unhex c) rs ws entries
   | ["library", f] => libraryLine (unhex f)
   | ["libraryfull", f] => libraryFullLine (unhex f)
+  | ["libraryio", c, rs, ws] => libraryIoLine (unhex c) rs ws
   | ["estimate", d] => estimateLine (unhex d)
   | ["estimatefull", d] => estimateFullLine (unhex d)
   | ["public", d] => publicLine (unhex d)
